@@ -28,8 +28,16 @@ def unit(job, variant, pi, seed, length, per_key, only=None):
         out["views" if call["is_view"] else "reducers"] += 1
         # observations in the terms of the effect model (Simaple/Model/Effect.lean)
         ob = complib.effect_observation(call)
-        agg = out["observed"].setdefault(key, {"changed": [], "aliases": [], "calls": 0, "raised": 0})
+        agg = out["observed"].setdefault(key, {"changed": [], "aliases": [], "calls": 0, "raised": 0, "attr_writes": []})
         agg["calls"] += 1
+        for w in ob["attr_writes"]:
+            if w not in agg["attr_writes"]:
+                agg["attr_writes"].append(w)
+        if ob["old_object_writes"] and len(out["failing"]) < 5:
+            out["failing"].append({"component_class": type(call["owner"]).__name__, "component": call["owner"].name,
+                                   "method": call["method"], "kind": "wrote-an-object-that-existed-before-the-call",
+                                   "job": job, "payload": None if call["is_view"] else complib.dump_arg(call["args"][0]),
+                                   "state": complib.dump_arg(call["args"][-1]), "detail": ob["old_object_writes"]})
         agg["raised"] += ob["raised"] is not None
         for c in ob["changed"]:
             if c not in agg["changed"]:
@@ -58,8 +66,11 @@ EXCEPTIONS = {("AdeleStormComponent", "use")}   # Props/C08_EffectsBase.lean `pa
 
 def merge_observed(into: dict, new: dict):
     for key, ob in new.items():
-        agg = into.setdefault(key, {"changed": [], "aliases": [], "calls": 0, "raised": 0})
+        agg = into.setdefault(key, {"changed": [], "aliases": [], "calls": 0, "raised": 0, "attr_writes": []})
         agg["calls"] += ob["calls"]
+        for w in ob.get("attr_writes", []):
+            if w not in agg["attr_writes"]:
+                agg["attr_writes"].append(w)
         agg["raised"] += ob["raised"]
         for c in ob["changed"]:
             if c not in agg["changed"]:
@@ -137,7 +148,12 @@ def main(ck: Check):
                 continue
             stores = set(e["stores"])
             bad = [c for c in ob["changed"] if not (c[1] in stores or c[0] in stores or (c[2] and "[]" in stores))]
-            if bad:
+            unpredicted = [w for w in ob.get("attr_writes", []) if w not in stores]
+            if unpredicted:
+                ck.broken.append({"kind": "correspondence", "point": "an attribute assignment traced during real calls is not a store of the effect program",
+                                  "method": key, "attributes": unpredicted[:6], "model_stores": sorted(stores)})
+                bad = bad or [["(traced)", unpredicted[0], False]]
+            if bad and not unpredicted:
                 ck.broken.append({"kind": "correspondence", "point": "observed state change not among the stores of the effect program",
                                   "method": key, "changed": bad[:4], "model_stores": sorted(stores)})
             taint = set(e["taint"])
@@ -170,7 +186,9 @@ def main(ck: Check):
                 f"(distinct by (class, method, payload, state dump), at most {per_key} per (class, method)); each is replayed as a "
                 "direct call component.<method>(payload, state) twice on the SAME argument objects and once on deep copies: the "
                 "dump of every argument must be unchanged after each call, the component itself unchanged, and the three results "
-                "equal. Each call is also compared with the effect program generated from the method: every (entity, field) the "
+                "equal. Each call is also run with every pydantic attribute assignment traced (transient writes included): no traced "
+                "write may go to an object that existed before the call, and every traced attribute must be a store of the method's "
+                "effect program. Each call is also compared with the effect program generated from the method: every (entity, field) the "
                 "call changed must be a store of the program, a result the model derives fresh must share no mutable object "
                 "(by identity) with the arguments or the component, and every field the translator treats as immutable must "
                 "hold an immutable value. evaluations = harvested calls; distinct_nontrivial = distinct (class, method) pairs",
@@ -181,6 +199,7 @@ def main(ck: Check):
         "effect_programs_wellformed": sum(1 for e in entries.values() if e["wellFormed"]),
         "effect_programs_outside_discipline": sorted(f"{c}.{m}" for c, m in EXCEPTIONS),
         "methods_observed_against_effect_model": len(observed),
+        "distinct_traced_attribute_writes": sum(len(ob.get("attr_writes", [])) for ob in observed.values()),
         "methods_agreeing_with_effect_model": model_ok,
         "results_derived_fresh": sum(1 for e in entries.values() if e["resultTag"] in ("fresh", "prim")),
         "results_possibly_aliasing_the_input": sorted(k for k, e in entries.items() if e["kind"] == "reducer" and e["resultTag"] == "shared"),
